@@ -10,7 +10,11 @@ memk):
   SimEvent        the properties time / priority / id, the comparison methods __lt__ __le__
                   __gt__ __ge__ __eq__ __ne__ and every helper method they call (__cmp__),
                   the class-level counter method(s) and the id assignment in __init__
-  EventListHeap   __init__ add pop_first peek_first remove contains clear is_empty size
+  EventListHeap   __init__ add pop_first peek_first remove contains clear is_empty size, and __str__ / __repr__
+                  as CHECKED OBSERVERS: after verifying that the body is made only of constructs that
+                  build a string from the list (see Translator.observer_method for the whitelist; no
+                  assignment to an attribute, no call on the list but iteration and len) they are
+                  translated as `the list unchanged, some string` -- the text is not modelled
 
 coq/EventList/GenAgree.v then proves every generated definition equal to the hand-written
 model function.  The translation is a shallow embedding and FAIL-CLOSED: every construct that is
@@ -102,16 +106,19 @@ FIELDS = {"_absolute_time": "e_time", "_priority": "e_prio", "_id": "e_id"}
 KEY_PROJ = {"e_time": "k_time", "e_prio": "k_nprio", "e_id": "k_id"}
 LIST_ATTR = "_event_list"
 COUNTER = "__event_counter"
-EL_METHODS = ["__init__", "size", "is_empty", "add", "contains", "peek_first", "pop_first", "remove", "clear"]
+EL_METHODS = ["__init__", "size", "is_empty", "add", "contains", "peek_first", "pop_first", "remove", "clear", "__str__", "__repr__"]
+OBSERVERS = ["__str__", "__repr__"]
 CMP_METHODS = ["__eq__", "__ne__", "__lt__", "__le__", "__gt__", "__ge__"]
 PROPS = ["time", "priority", "id"]
-GTYPE = {"unit": "unit", "bool": "bool", "nat": "nat", "Z": "Z", "optkey": "option key"}
+GTYPE = {"unit": "unit", "bool": "bool", "nat": "nat", "Z": "Z", "optkey": "option key", "pystr": "pystr"}
 REFLECTIVE = {"setattr", "vars", "exec", "eval", "globals", "locals", "delattr", "super", "object"}
 GUARDED_ATTRS = set(FIELDS) | {COUNTER, "__new_event_counter", "__dict__", "__class__", "__setattr__", "__slots__"}
 
 PRELUDE = r"""
 (* ---- fixed prelude: the Python primitives the translation uses ---- *)
 Inductive pyexn := IndexError | ValueError | TypeError.
+(* a Python string; its text is not modelled (for str(el) it shows the private array layout) *)
+Inductive pystr := PyStr.
 (* how a method call ends: normally, with the new list and the returned value, or by raising *)
 Inductive mres (A : Type) := MOk (h : list key) (v : A) | MRaise (e : pyexn) (h : list key).
 Arguments MOk {A} h v.
@@ -384,14 +391,15 @@ class Translator:
                 self.fail(node, f"method {cname}.{mname} not found (inherited methods are not resolved)")
             raise Unsupported(self.mod(cname).path, self.mod(cname).classes[cname], f"method {cname}.{mname} not found")
         decos = [ast.unparse(d) for d in f.decorator_list]
-        self.forbid_nested(f, cname)
+        if not (cname == "EventListHeap" and mname in OBSERVERS):      # those have a whitelist of their own
+            self.forbid_nested(f, cname)
         saved = self.ctx
         self.stack.append(key)
         try:
             if cname == "EventListHeap":
                 if decos:
                     self.fail(f, f"decorated method {cname}.{mname}", cname)
-                sig = self.heap_method(f, mname)
+                sig = self.observer_method(f, mname) if mname in OBSERVERS else self.heap_method(f, mname)
             elif decos == ["classmethod"]:
                 sig = self.counter_method(f, mname)
             elif decos:
@@ -445,6 +453,128 @@ class Translator:
         self.defs.append((self.group, f"{self.header('EventListHeap', mname, f)}\nDefinition {name} {binders} : mres {GTYPE[rk] if ' ' not in GTYPE[rk] else '(' + GTYPE[rk] + ')'} :=\n{ind(text)}."))
         self.record("EventListHeap", mname, name, f)
         return {"name": name, "ret": rk, "params": params, "mode": "heap"}
+
+    # ------------------------------------------------------------------ __str__ / __repr__: checked observers
+    def observer_method(self, f, mname):
+        """A method that only BUILDS A STRING from the list: translated as `the list unchanged, some string`
+        after checking that the body is made of nothing but: assignments / `+=` to plain local names, `for x in
+        self._event_list:` (also as a comprehension), if, return, pass; constants, names, f-strings, + % *, unary
+        minus / not, comparisons, constant subscripts, attribute READS of anything but self, tuples; the calls
+        str / repr / len / int / float / format of such expressions, "sep".join(..), and str(self) / repr(self) /
+        self.__str__() / self.__repr__() (the other observer).  self._event_list may only be iterated over or
+        measured.  None of these can assign to the list or call one of its mutators; anything else is refused."""
+        if self.plain_params(f, "EventListHeap"):
+            self.fail(f, f"EventListHeap.{mname} with parameters", "EventListHeap")
+        self.ctx = Ctx("EventListHeap", mname, f, "heap")
+        callees = []
+
+        def is_self(n):
+            return isinstance(n, ast.Name) and n.id == "self"
+
+        def is_lst(n):
+            return isinstance(n, ast.Attribute) and is_self(n.value) and n.attr == LIST_ATTR and isinstance(n.ctx, ast.Load)
+
+        def ex(n):
+            if isinstance(n, ast.Constant) and (n.value is None or isinstance(n.value, (str, int, float, bool))):
+                return
+            if isinstance(n, ast.Name) and isinstance(n.ctx, ast.Load):
+                if n.id == "self":
+                    self.fail(n, f"EventListHeap.{mname}: `self` used as a value")
+                return
+            if isinstance(n, ast.JoinedStr):
+                for v in n.values:
+                    ex(v)
+                return
+            if isinstance(n, ast.FormattedValue):
+                ex(n.value)
+                if n.format_spec is not None:
+                    ex(n.format_spec)
+                return
+            if isinstance(n, ast.BinOp) and isinstance(n.op, (ast.Add, ast.Mod, ast.Mult)):
+                ex(n.left); ex(n.right)
+                return
+            if isinstance(n, ast.UnaryOp) and isinstance(n.op, (ast.USub, ast.Not)):
+                ex(n.operand)
+                return
+            if isinstance(n, ast.Compare) and all(isinstance(o, (ast.Lt, ast.Gt, ast.LtE, ast.GtE, ast.Eq, ast.NotEq)) for o in n.ops):
+                ex(n.left)
+                for c in n.comparators:
+                    ex(c)
+                return
+            if isinstance(n, ast.Tuple) and isinstance(n.ctx, ast.Load):
+                for x in n.elts:
+                    ex(x)
+                return
+            if isinstance(n, ast.Subscript) and isinstance(n.ctx, ast.Load) and isinstance(n.slice, ast.Constant) and isinstance(n.slice.value, int):
+                ex(n.value)
+                return
+            if isinstance(n, ast.Attribute) and isinstance(n.ctx, ast.Load) and not is_self(n.value):
+                ex(n.value)
+                return
+            if isinstance(n, (ast.ListComp, ast.GeneratorExp)) and len(n.generators) == 1:
+                g = n.generators[0]
+                if is_lst(g.iter) and isinstance(g.target, ast.Name) and not g.is_async:
+                    for c in g.ifs:
+                        ex(c)
+                    ex(n.elt)
+                    return
+            if isinstance(n, ast.Call) and not n.keywords and not any(isinstance(a, ast.Starred) for a in n.args):
+                fn = n.func
+                if isinstance(fn, ast.Name) and fn.id in ("str", "repr") and len(n.args) == 1 and is_self(n.args[0]):
+                    callees.append(("__str__" if fn.id == "str" else "__repr__", n))
+                    return
+                if isinstance(fn, ast.Attribute) and is_self(fn.value) and fn.attr in OBSERVERS and not n.args:
+                    callees.append((fn.attr, n))
+                    return
+                if isinstance(fn, ast.Name) and fn.id == "len" and len(n.args) == 1 and is_lst(n.args[0]):
+                    return
+                if isinstance(fn, ast.Name) and fn.id in ("str", "repr", "len", "int", "float", "format") and fn.id not in self.mod().bound:
+                    for a_ in n.args:
+                        ex(a_)
+                    return
+                if isinstance(fn, ast.Attribute) and fn.attr == "join" and isinstance(fn.value, ast.Constant) and isinstance(fn.value.value, str) \
+                        and len(n.args) == 1:
+                    ex(n.args[0])
+                    return
+            self.fail(n, f"EventListHeap.{mname}: `{ast.unparse(n)[:50]}` ({type(n).__name__}) -- not among the constructs of a method that "
+                         "only builds a string from the list")
+
+        def st(s):
+            if isinstance(s, ast.Pass) or (isinstance(s, ast.Expr) and isinstance(s.value, ast.Constant)):
+                return
+            if isinstance(s, ast.Assign) and len(s.targets) == 1 and isinstance(s.targets[0], ast.Name) and s.targets[0].id != "self":
+                return ex(s.value)
+            if isinstance(s, ast.AugAssign) and isinstance(s.target, ast.Name) and s.target.id != "self" and isinstance(s.op, ast.Add):
+                return ex(s.value)
+            if isinstance(s, ast.For) and isinstance(s.target, ast.Name) and s.target.id != "self" and is_lst(s.iter) and not s.orelse:
+                for x in s.body:
+                    st(x)
+                return
+            if isinstance(s, ast.If):
+                ex(s.test)
+                for x in s.body + s.orelse:
+                    st(x)
+                return
+            if isinstance(s, ast.Return) and s.value is not None:
+                return ex(s.value)
+            self.fail(s, f"EventListHeap.{mname}: statement {type(s).__name__} `{ast.unparse(s)[:50]}` -- not among the constructs of a "
+                         "method that only builds a string from the list")
+        for n in ast.walk(f):
+            if isinstance(n, (ast.FunctionDef, ast.AsyncFunctionDef, ast.Lambda, ast.ClassDef)) and n is not f:
+                self.fail(n, "nested function / class / lambda")
+        for s in self.body_of(f):
+            st(s)
+        text, h = "", "h"
+        for i, (callee, node) in enumerate(callees):
+            sig = self.method("EventListHeap", callee, node)
+            text += f"mbind ({sig['name']} L {h}) (fun h_{i + 1} _ =>\n"
+            h = f"h_{i + 1}"
+        text += f"MOk {h} PyStr" + ")" * len(callees)
+        name = f"gen_EventListHeap_{mname}"
+        self.defs.append((self.group, f"{self.header('EventListHeap', mname, f)}\n(* checked observer: only builds a string from the list *)\n"
+                                      f"Definition {name} (L : heaplib) (h : list key) : mres pystr :=\n{ind(text)}."))
+        self.record("EventListHeap", mname, name, f, note="checked observer: the list unchanged, the text of the string not modelled")
+        return {"name": name, "ret": "pystr", "params": [], "mode": "heap"}
 
     def pure_method(self, f, mname):
         params = self.plain_params(f, "SimEvent")
